@@ -1794,6 +1794,12 @@ def setitem_array(out_name, array, indices, value):
     #
     # Note that array_common_shape and value_common_shape may be
     # different if there are any size 1 dimensions being broadcast.
+    # ``reverse`` holds positions in ``indices``; from here on they are needed as
+    # positions in ``implied_shape``, which has no entry for an integer index
+    reverse = [
+        i - sum(isinstance(index, int) for index in indices[:i]) for i in reverse
+    ]
+
     offset = len(implied_shape) - value_ndim
     if offset >= 0:
         # The array has the same number or more dimensions than the
@@ -1897,8 +1903,10 @@ def setitem_array(out_name, array, indices, value):
         # overlaps the assignment indices.
         overlaps = True
 
-        # Note which dimension, if any, has 1-d integer array index
+        # Note which dimension, if any, has 1-d integer array index, and
+        # its position among the dimensions without an integer index
         dim_1d_int_index = None
+        pos_1d_int_index = None
 
         for dim, (index, (loc0, loc1)) in enumerate(zip(indices, locations)):
             integer_index = isinstance(index, int)
@@ -1952,6 +1960,7 @@ def setitem_array(out_name, array, indices, value):
                     block_index_size = None
                     n_preceding = None
                     dim_1d_int_index = dim
+                    pos_1d_int_index = len(block_indices_shape)
                     loc0_loc1 = loc0, loc1
 
                 if not is_dask_collection(index) and not block_index.size:
@@ -1994,12 +2003,12 @@ def setitem_array(out_name, array, indices, value):
         value_indices = base_value_indices[:]
         for i in non_broadcast_dimensions:
             j = i + offset
-            if j == dim_1d_int_index:
+            if j == pos_1d_int_index:
                 # Index is a 1-d integer array
                 #
                 # Define index in the current namespace for use in
                 # `value_indices_from_1d_int_index`
-                index = indices[j]
+                index = indices[dim_1d_int_index]
 
                 value_indices[i] = value_indices_from_1d_int_index(
                     dim_1d_int_index, value_shape[i + value_offset], *loc0_loc1
